@@ -736,6 +736,66 @@ TxPayAddrSid(cfg, s, ev) ==
     ELSE IF BoundDid(s, ev.acc) # ev.did THEN Tx(s, Fail(w0, "binding not found"))
     ELSE Tx(s, [w0 EXCEPT !.pay = Put(@, "did", [did |-> ev.did, a |-> ev.acc])])
 
+\* ------------------------------------------------------------------ fault reports (x/sao ReportFaults / RecoverFaults, x/node fault store)
+\* strings.Contains on the symbolic commit tokens: the empty string is contained in everything
+CommitContains(hay, needle) == needle = "" \/ hay = needle
+FaultId(f) == "F_" \o f.provider \o "_" \o ToString(f.shard)
+IsFishman(cfg, a) == InSeq(a, cfg.fishmen)
+SetFault(w, f) ==
+    [w EXCEPT !.faults = IF Has(@, "id", f.id) THEN Put(@, "id", f) ELSE Append(@, f),
+              !.faultIdx = IF Has(@, "id", f.id) THEN @ ELSE Append(@, [provider |-> f.provider, shard |-> f.shard, id |-> f.id])]
+DelFault(w, f) == [w EXCEPT !.faults = Del(@, "id", f.id), !.faultIdx = Del(@, "id", f.id)]
+FishSet(w, key) == [w EXCEPT !.fishing = IF Has(@, "key", key) THEN @ ELSE Append(@, [key |-> key, amt |-> "0.000000000000000000"])]
+ZeroDec == "0.000000000000000000"
+
+TxReportFaults(cfg, s, ev) ==
+    LET w0 == Work(s) IN
+    IF ~HasNode(s, ev.creator) THEN Tx(s, Fail(w0, "node not found"))
+    ELSE IF ~IsFishman(cfg, ev.creator) THEN Tx(s, Fail(w0, "not a fishmen"))
+    ELSE
+    LET one(w, f) ==
+          IF ev.provider # f.provider \/ ~HasMeta(w, f.data) \/ ~HasOrder(w, f.order) THEN w
+          ELSE LET o == OrderOf(w, f.order) IN
+          IF o.data # f.data \/ CommitContains(o.commit, f.commit) THEN w
+          ELSE IF ~(InSeq(f.shard, o.shards) /\ HasShard(w, f.shard) /\ ShardOf(w, f.shard).sp = f.provider
+                    /\ ShardEnd(ShardOf(w, f.shard)) > w.h) THEN w
+          ELSE IF Has(w.faults, "id", FaultId(f)) THEN w      \* an existing report is only ever re-read with its own reporter: skipped
+          ELSE SetFault(w, [id |-> FaultId(f), order |-> f.order, data |-> f.data, shard |-> f.shard, commit |-> f.commit,
+                            provider |-> f.provider, reporter |-> ev.creator, confirms |-> <<[s |-> "+", w |-> ""]>>, status |-> 1, penalty |-> 0])
+    IN Tx(s, FoldLeft(one, w0, ev.faults))
+
+TxRecoverFaults(cfg, s, ev) ==
+    LET w0 == Work(s) IN
+    IF ~HasNode(s, ev.creator) THEN Tx(s, Fail(w0, "node not found"))
+    ELSE IF ev.creator = ev.provider /\ (NodeOf(s, ev.creator).status \div 4) % 2 = 0 THEN Tx(s, Fail(w0, "invalid status"))
+    ELSE IF ev.creator # ev.provider /\ ~IsFishman(cfg, ev.creator) THEN Tx(s, Fail(w0, "not a fishmen"))
+    ELSE
+    LET one(w, f) ==
+          IF ev.provider # f.provider \/ ~HasMeta(w, f.data) \/ ~HasOrder(w, f.order) THEN w
+          ELSE LET o == OrderOf(w, f.order) IN
+          IF o.data # f.data \/ ~CommitContains(o.commit, f.commit) THEN w
+          ELSE LET mine == SelectSeq(o.shards, LAMBDA id : HasShard(w, id) /\ ShardOf(w, id).sp = f.provider) IN
+          IF mine = <<>> \/ ShardEnd(ShardOf(w, mine[1])) <= w.h THEN w
+          ELSE IF ~Has(w.faults, "id", FaultId(f)) THEN w
+          ELSE LET g == Get(w.faults, "id", FaultId(f)) IN
+          IF g.data # f.data \/ g.order # f.order THEN w
+          ELSE
+          LET own == ev.provider = ev.creator /\ g.provider = ev.creator
+              \* a fishman's vote counts once the provider declared recovery (or he voted before)
+              votes == ~own /\ g.status = 3
+          IN IF ~own /\ ~votes THEN w
+             ELSE LET g1 == [g EXCEPT !.commit = f.commit, !.status = IF own THEN 3 ELSE @,
+                                      !.confirms = IF own THEN @ ELSE Append(@, [s |-> "-", w |-> ev.creator])]
+                      plus == Len(SelectSeq(g1.confirms, LAMBDA v : v.s = "+"))
+                      minus == Len(SelectSeq(g1.confirms, LAMBDA v : v.s = "-"))
+                  IN IF plus = minus /\ HasPledge(w, g.provider) THEN
+                         \* recovered: the penalty is 0 (penalties never accrue), zero fishing rewards are booked under the
+                         \* reporter's and the (original) voters' keys, the report is dropped
+                         LET keys == <<g.reporter>> \o [i \in 1..Len(g.confirms) |-> g.confirms[i].w]
+                         IN DelFault(FoldLeft(LAMBDA acc, k : FishSet(acc, k), w, keys), g)
+                     ELSE SetFault(w, g1)
+    IN Tx(s, FoldLeft(one, w0, ev.faults))
+
 \* ------------------------------------------------------------------ x/staking messages and the x/node staking hooks
 \* Exchange rate 1 (no slashing in the modelled world): shares = tokens.  vol is the package variable
 \* sharesBeforeModified of x/node/keeper/hooks.go together with the delegation it was recorded for:
@@ -935,6 +995,8 @@ Apply(cfg, s, ev) ==
       [] ev.kind = "RemoveVstorage" -> TxRemoveVstorage(cfg, s, ev)
       [] ev.kind = "Claim"          -> TxClaim(cfg, s, ev)
       [] ev.kind = "PayAddr"        -> TxPayAddr(cfg, s, ev)
+      [] ev.kind = "ReportFaults"   -> TxReportFaults(cfg, s, ev)
+      [] ev.kind = "RecoverFaults"  -> TxRecoverFaults(cfg, s, ev)
       [] ev.kind = "Delegate"       -> TxDelegate(cfg, s, ev)
       [] ev.kind = "Undelegate"     -> TxUndelegate(cfg, s, ev)
       [] ev.kind = "Binding"        -> TxBinding(cfg, s, ev)
